@@ -2,6 +2,7 @@
 
 mod dump;
 mod expr;
+mod prim;
 mod rec;
 mod run;
 mod ser;
@@ -29,6 +30,12 @@ fn main() {
         "dump" => {
             if let Err(e) = dump::run_file(&args[2], &args[3]) {
                 eprintln!("dump failed: {}", e);
+                std::process::exit(2);
+            }
+        }
+        "prim" | "cut" => {
+            if let Err(e) = prim::run_file(&args[1], &args[2], &args[3]) {
+                eprintln!("{} failed: {}", args[1], e);
                 std::process::exit(2);
             }
         }
